@@ -20,14 +20,18 @@ Qed.
 
 Section InterleaveProofs.
   Variable mix : N -> N -> N.
+  Variable bump : bool.
+  (* scanner-side code never writes the engine-wide clock (discharged in
+     Props/C13.v from the generated table of writes) *)
+  Hypothesis bump_off : bump = false.
 
-  Notation thr_step := (thr_step mix).
-  Notation step := (step mix).
-  Notation exec := (exec mix).
-  Notation solo_run := (solo_run mix).
+  Notation thr_step := (thr_step mix bump).
+  Notation step := (step mix bump).
+  Notation exec := (exec mix bump).
+  Notation solo_run := (solo_run mix bump).
   Notation pure_acc := (pure_acc mix).
   Notation ok_result := (ok_result mix).
-  Notation run_schedule := (run_schedule mix).
+  Notation run_schedule := (run_schedule mix bump).
 
   (* ------------------------------------------------------------ lists *)
   Lemma nth_error_upd_same : forall A (l : list A) i a x, nth_error l i = Some a -> nth_error (upd i x l) i = Some x.
@@ -42,8 +46,20 @@ Section InterleaveProofs.
   Proof. induction l as [|h t IH]; intros [|i] x; simpl; auto. Qed.
 
   (* ------------------------------------------------------------ the clock is only moved by the heartbeat *)
-  Lemma apply_effect_clock : forall f s, counter (apply_effect f s) = counter s /\ epoch (apply_effect f s) = epoch s.
-  Proof. intros [| |] s; simpl; auto; [destruct (engine_init s) | destruct (hb_started s)]; auto. Qed.
+  Lemma apply_effect_clock : forall f s, f <> EBumpEpoch ->
+    counter (apply_effect f s) = counter s /\ epoch (apply_effect f s) = epoch s.
+  Proof. intros [| | |] s H; simpl; auto; [destruct (engine_init s) | destruct (hb_started s) | congruence]; auto. Qed.
+
+  Lemma thr_step_effect : forall c e t t' f, thr_step c e t = Some (t', f) -> f <> EBumpEpoch.
+  Proof.
+    intros c e t t' f H. unfold Interleave.thr_step in H. rewrite bump_off in H.
+    destruct (running t) as [k|].
+    - destruct (rest k) as [|[d| |] r]; try (inversion H; discriminate).
+      + destruct (counter_poll_fires c (dl_c k)); inversion H; discriminate.
+      + destruct (epoch_poll_fires e (dl_e k)); inversion H; discriminate.
+    - destruct (todo t) as [|[|sc] td]; try discriminate; inversion H; try discriminate.
+      destruct (s_timeout sc); discriminate.
+  Qed.
 
   (* PROJECTION.  Whatever the other threads do, the state of thread i after an
      interleaved run is the state of thread i run ALONE under a clock that
@@ -61,7 +77,7 @@ Section InterleaveProofs.
         destruct (nth_error (thrs s) j) as [tj|] eqn:Hj; [|discriminate].
         destruct (thr_step (counter (sh s)) (epoch (sh s)) tj) as [[tj' f]|] eqn:Et; [|discriminate].
         inversion Es; subst s1; clear Es.
-        destruct (apply_effect_clock f (sh s)) as [Hc Hep].
+        destruct (apply_effect_clock f (sh s) (thr_step_effect _ _ _ _ _ Et)) as [Hc Hep].
         destruct (Nat.eqb j i) eqn:Eji.
         * apply Nat.eqb_eq in Eji. subst j. rewrite Hn in Hj. inversion Hj; subst tj.
           destruct (IH _ _ i tj' He) as (t' & A & B).
@@ -267,9 +283,9 @@ Section InterleaveProofs.
   Qed.
 
   (* ------------------------------------------------------------ first use *)
-  Theorem apply_effect_idempotent : forall f s, apply_effect f (apply_effect f s) = apply_effect f s.
+  Theorem apply_effect_idempotent : forall f s, f <> EBumpEpoch -> apply_effect f (apply_effect f s) = apply_effect f s.
   Proof.
-    intros [| |] s; simpl; auto.
+    intros [| | |] s H; simpl; auto; [| |congruence].
     - destruct (engine_init s) eqn:E; simpl; rewrite ?E; auto.
     - destruct (hb_started s) eqn:E; simpl; rewrite ?E; auto.
   Qed.
@@ -282,9 +298,10 @@ Section InterleaveProofs.
   Proof.
     intros s l s' Hs [H1 H2]. unfold Interleave.step in Hs. destruct l as [i| |].
     - destruct (nth_error (thrs s) i); [|discriminate].
-      destruct (thr_step (counter (sh s)) (epoch (sh s)) t) as [[t' f]|]; [|discriminate].
+      destruct (thr_step (counter (sh s)) (epoch (sh s)) t) as [[t' f]|] eqn:Et; [|discriminate].
+      pose proof (thr_step_effect _ _ _ _ _ Et) as Hne. clear Et.
       inversion Hs; subst; clear Hs. simpl. destruct (sh s) as [c e hs hp ei sp ec]; simpl in *.
-      destruct f; simpl; [split; auto| |].
+      destruct f; simpl; [split; auto| | |congruence].
       + destruct ei; unfold init_ok; simpl; split; auto.
         destruct H2 as [[? ?]|[? ?]]; [discriminate|]. left. split; auto; try lia.
       + destruct hs; unfold init_ok; simpl; split; auto.
@@ -304,7 +321,7 @@ Section InterleaveProofs.
   Proof.
     intros progs tr s He.
     assert (G : forall tr s0 s, init_ok (sh s0) -> exec tr s0 = Some s -> init_ok (sh s)).
-    { clear. induction tr as [|l tr IH]; simpl; intros s0 s H He.
+    { clear progs tr s He. induction tr as [|l tr IH]; simpl; intros s0 s H He.
       - inversion He; subst; auto.
       - destruct (step s0 l) as [s1|] eqn:E; [|discriminate]. apply (IH s1 s); auto. apply (step_init_ok s0 l s1); auto. }
     apply (G tr (init progs) s); auto.
@@ -317,10 +334,29 @@ Section InterleaveProofs.
     induction picks as [|k ks IH]; intros m s.
     - exists []. reflexivity.
     - cbn [Interleave.run_schedule].
-      destruct (filter (fun l => thread_label l || negb (Nat.eqb m 0)) (enabled mix s)) as [|l0 en']; [exists []; reflexivity|].
+      destruct (filter (fun l => thread_label l || negb (Nat.eqb m 0)) (enabled mix bump s)) as [|l0 en']; [exists []; reflexivity|].
       cbv zeta.
       destruct (step s (nth (k mod S (length en')) (l0 :: en') l0)) as [s1|] eqn:E; [|exists []; reflexivity].
       destruct (IH (if thread_label (nth (k mod S (length en')) (l0 :: en') l0) then m else pred m) s1) as (tr & Htr).
       exists (nth (k mod S (length en')) (l0 :: en') l0 :: tr). cbn [Interleave.exec]. rewrite E. exact Htr.
   Qed.
 End InterleaveProofs.
+
+(* IF scanner-side code wrote the engine-wide epoch ([bump = true]: e.g. a
+   search-phase timeout that calls increment_epoch() on the shared engine
+   instead of setting its own store's deadline), deadlines would not be
+   private: without a single heartbeat transition, scanner 0 timing out in its
+   pattern search makes scanner 1 (timeout 1 s, no tick elapsed) time out. *)
+Theorem own_deadline_refuted_if_scanner_writes_epoch : forall (mix : N -> N -> N) (bump : bool),
+  bump = true ->
+  exists progs tr s t sc,
+    exec mix bump tr (init progs) = Some s /\ hearts tr = 0 /\
+    nth_error progs 1 = Some [IScan sc] /\ timeout_secs (s_timeout sc) = 1 /\
+    nth_error (thrs s) 1 = Some t /\ results t = [RTimeout].
+Proof.
+  intros mix bump ->.
+  exists [[IScan (mkScan (Some 0) [BPollC])]; [IScan (mkScan (Some 1) [BPollE])]].
+  exists [LThread 1; LThread 0; LThread 0; LThread 1].
+  eexists. eexists. exists (mkScan (Some 1) [BPollE]).
+  split; [vm_compute; reflexivity|]. repeat split; reflexivity.
+Qed.
